@@ -216,7 +216,16 @@ def run(ctx):
     for inv in mc.invariant_violated:
         ctx.violation({"tlc_counterexample": mc.counterexample()[-1:]}, "TLC refuted invariant %s of P_C04" % inv)
     cases = core.replay_cases(ctx) or make_cases(ctx)
-    results = core.run_cases(ctx, "harness.lib", "call_parse", [to_call(c) for c in cases])
+    calls = [to_call(c) for c in cases]
+    import json as _json
+
+    def other_settings(i):      # batch members differ in RELATIVE_BASE (and the phrase) only, where possible
+        st = dict(calls[i]["settings"] or {})
+        st.pop("RELATIVE_BASE", None)
+        return _json.dumps(st, sort_keys=True, default=str)
+    # a third of the explicit-base cases run on parsers that were all built before any of them was used: "for every
+    # reference datetime b" must hold for a parser object however many other parsers with other bases exist
+    results = core.run_cases_prebuilt(ctx, calls, lambda i: cases[i]["kind"] == "c04" and i % 3 == 0 and not ctx.replay, size=5, key=other_settings)
     records = []
     for i, (c, r) in enumerate(zip(cases, results)):
         rec = {"kind": c["kind"], "tid": i, "kw": c["kw"], "dir": c["dir"], "pdf": c["pdf"], "tov": c["tov"], "counted": c["counted"],
